@@ -80,6 +80,7 @@ class Ctx(object):
 def make_stage(ctx):
     base = os.environ.get("ESRV_TMP") or tempfile.gettempdir()
     ctx.tmp = tempfile.mkdtemp(prefix="esrverif.%s." % ctx.pid, dir=base)
+    os.environ["ESRV_MPI_TMPBASE"] = ctx.tmp        # launcher scratch (hub sockets, rank stdout) dies with ctx.tmp
     ctx.stage = os.path.join(ctx.tmp, "repo")
     shutil.copytree(REPO, ctx.stage, symlinks=True,
                     ignore=shutil.ignore_patterns(".git", "__pycache__", "*.pyc", ".pytest_cache"))
